@@ -393,6 +393,9 @@ def gen_history(ctx: Ctx, n: int, fixes: dict) -> list[tuple]:
                         [10, 4, 3, 3, 2, 1, 3, 1, 1, 3])[0]
         if k == "c07":
             op = C07.gen_history(ctx, 1, fixes)[0]
+            while op[0] in ("fm_fail", "c2_fail"):
+                # C07's calls built to raise (fm_fail / c2_fail) have no catalog-model counterpart here
+                op = C07.gen_history(ctx, 1, fixes)[0]
             if op[0] == "chg":
                 op = ("predict",)
             hist.append(op)
